@@ -934,6 +934,17 @@ impl<'p, 'a> Evaluator<'a, 'p> {
                     if matches!(self.value_stack.last().unwrap(), ValueData::Bool(false)) {
                         self.value_stack.pop().unwrap();
                         self.value_stack.push(ValueData::Bool(false));
+                    } else if !matches!(self.value_stack.last().unwrap(), ValueData::Bool(_)) {
+                        // The right-hand side is not evaluated when the left-hand
+                        // side already decides the outcome, here a type error.
+                        let lhs = self.value_stack.pop().unwrap();
+                        return Err(self.report_error(EvalErrorKind::Other {
+                            span: Some(span),
+                            message: format!(
+                                "left operand of `&&` must be a boolean, got {}",
+                                EvalErrorValueType::from_value(&lhs).to_str(),
+                            ),
+                        }));
                     } else {
                         self.state_stack.push(State::BinaryOp {
                             span: Some(span),
@@ -946,6 +957,15 @@ impl<'p, 'a> Evaluator<'a, 'p> {
                     if matches!(self.value_stack.last().unwrap(), ValueData::Bool(true)) {
                         self.value_stack.pop().unwrap();
                         self.value_stack.push(ValueData::Bool(true));
+                    } else if !matches!(self.value_stack.last().unwrap(), ValueData::Bool(_)) {
+                        let lhs = self.value_stack.pop().unwrap();
+                        return Err(self.report_error(EvalErrorKind::Other {
+                            span: Some(span),
+                            message: format!(
+                                "left operand of `||` must be a boolean, got {}",
+                                EvalErrorValueType::from_value(&lhs).to_str(),
+                            ),
+                        }));
                     } else {
                         self.state_stack.push(State::BinaryOp {
                             span: Some(span),
